@@ -141,9 +141,32 @@ def run(ctx):
     # corrected by a constant is off by one for @staticmethod / @classmethod members, which are then registered in
     # the wrong table or not at all (the name stays unbound until the transition fires).
     ml = p.cls("MachineLogic")
-    reg = next((m_ for m_ in ml.methods.values() if any(isinstance(x, ast.Call) and norm(x.func) == "inspect.signature" for x in own_nodes(m_.node))), None)
+    def _sig_args(f, depth=1):
+        """Expressions whose signature *f* takes: inspect.signature(e) directly, or h(e) for a helper h that does it for its parameter."""
+        out = [x.args[0] for x in own_nodes(f.node) if isinstance(x, ast.Call) and norm(x.func) == "inspect.signature" and x.args]
+        if depth <= 0:
+            return out
+        for y in own_nodes(f.node):
+            if not (isinstance(y, ast.Call) and y.args):
+                continue
+            nm = y.func.attr if isinstance(y.func, ast.Attribute) else (y.func.id if isinstance(y.func, ast.Name) else None)
+            h = ml.methods.get(nm) if isinstance(y.func, ast.Attribute) else next((g_ for g_ in p.all_funcs if g_.cls is None and g_.parent is None and g_.name == nm and g_.module == f.module), None)
+            if h is None or h is f:
+                continue
+            hp = [q for q in h.params if q not in ("self", "cls")]
+            for e in _sig_args(h, depth - 1):
+                if isinstance(e, ast.Name) and e.id in hp and hp.index(e.id) < len(y.args):
+                    out.append(y.args[hp.index(e.id)])
+        return out
+    reg = next((m_ for m_ in ml.methods.values() if _sig_args(m_) and any(
+        isinstance(x, ast.Assign) and isinstance(x.targets[0], ast.Subscript) and isinstance(x.targets[0].value, ast.Name) and x.targets[0].value.id.startswith("registr")
+        for x in own_nodes(m_.node))), None)
     c.need(reg, "MachineLogic subclass-method registration")
-    sigs = [x for x in own_nodes(reg.node) if isinstance(x, ast.Call) and norm(x.func) == "inspect.signature" and x.args]
+
+    class _S:      # the expression whose signature is taken, in the shape the comparison below expects
+        def __init__(self, e):
+            self.args = [e]
+    sigs = [_S(e) for e in _sig_args(reg)]
     stores = [x for x in own_nodes(reg.node) if isinstance(x, ast.Assign) and isinstance(x.targets[0], ast.Subscript) and isinstance(x.targets[0].value, ast.Name)
               and x.targets[0].value.id.startswith("registr")]
     c.floor("R7", "registry stores in the subclass-method registration", len(stores), 1)
